@@ -89,6 +89,7 @@ type PathResult struct {
 	AssertID   string
 	Known      string // known-finding class active on this path ("" if none)
 	EngineOnly string
+	Reports    []string
 	Trace      string
 	Nondets    []NondetVal
 	Reached    []string
@@ -116,6 +117,7 @@ type Exec struct {
 	reached    []string
 	known      string
 	engineOnly string
+	reports    []string
 	asserts    int
 	symAsserts int
 
